@@ -160,6 +160,11 @@ def run_timeout(wk, scenario, timeout=2):
         before = 1 if scenario == "healthy" else 20
         s = rp.Server(wk, workers=nworkers, threads=2 if wk == "gthread" else None, config="timeout = %d\n" % before,
                       args=["--graceful-timeout", "2"], name="c11")
+    elif scenario == "healthy_idle_keepalive":
+        # a healthy worker holding an idle keep-alive connection whose keep-alive time is longer than --timeout
+        nworkers = 1
+        s = rp.Server(wk, workers=1, threads=2 if wk == "gthread" else None,
+                      args=["--timeout", str(timeout), "--graceful-timeout", "2", "--keep-alive", str(timeout * 5)], name="c11")
     elif scenario == "healthy_full":
         # every connection slot of a threaded worker is taken by clients that are slow, not by a hung worker
         nworkers = 1
@@ -222,6 +227,21 @@ def run_timeout(wk, scenario, timeout=2):
             return tr, {"wk": wk, "scenario": scenario, "requests": n, "failed": fails}
         # hang -> ABRT at most timeout + 1 s (master loop) later; ignored ABRT -> KILL one more loop (1 s) later
         bound = timeout * 1000 + 1000 + (1000 if scenario.startswith("ignore") else 0) + 1000 + slack
+        if scenario == "healthy_idle_keepalive":
+            a = s.connect(timeout=timeout * 8)
+            st, body, info = s.get("/pid", sock=a, keepalive=True)
+            time.sleep(timeout * 2.6)
+            alive = [p for p in initial if rp.proc_state(p) not in (None, "Z")]
+            ev.append({"e": "healthy", "killed": len(initial) - len(alive)})
+            try:
+                st2, body2, info2 = s.get("/pid", sock=a, keepalive=True)
+                ok2 = st2 == 200 and rp.parse_ident(body2)[0] in initial
+            except OSError:
+                ok2 = False
+            ev.append({"e": "others", "ok": 1 if ok2 else 0, "failed": 0 if ok2 else 1})
+            a.close()
+            tr = {"scenario": scenario, "wk": wk, "timeout_ms": timeout * 1000, "bound_ms": 0, "min_ms": 0, "ev": ev}
+            return tr, {"wk": wk, "scenario": scenario, "requests": 2, "log": s.errlog()[-300:]}
         if scenario == "healthy_full":
             a = s.connect(timeout=timeout * 6)
             st, body, info = s.get("/pid", sock=a, keepalive=True)
@@ -352,12 +372,13 @@ def run_timeout(wk, scenario, timeout=2):
 
 def timeout_side(ctx):
     plan = [("sync", "hang"), ("gthread", "stop"), ("sync", "healthy"), ("gevent", "healthy"), ("sync", "healthy2"),
-            ("sync", "healthy_busy"), ("sync", "stop_busymaster"), ("sync", "hup_hang"), ("sync", "hup_healthy"), ("gthread", "healthy_full")] if ctx.quick else \
+            ("sync", "healthy_busy"), ("sync", "stop_busymaster"), ("sync", "hup_hang"), ("sync", "hup_healthy"), ("gthread", "healthy_full"), ("gthread", "healthy_idle_keepalive")] if ctx.quick else \
         [(wk, sc) for wk in ("sync", "gthread", "gevent", "eventlet") for sc in ("hang", "stop", "ignore", "healthy")] + \
         [("sync", "healthy2"), ("gthread", "healthy2"), ("sync", "healthy_busy"), ("gthread", "healthy_busy"),
          ("sync", "stop_busymaster"), ("gevent", "stop_busymaster"), ("sync", "hang_busymaster"),
-         ("sync", "hup_hang"), ("sync", "hup_healthy"), ("gthread", "hup_stop"), ("gevent", "hup_healthy"), ("gthread", "healthy_full")]
-    results = _parallel(plan, lambda a, i: run_timeout(a[0], a[1]), par=10)
+         ("sync", "hup_hang"), ("sync", "hup_healthy"), ("gthread", "hup_stop"), ("gevent", "hup_healthy"), ("gthread", "healthy_full"), ("gthread", "healthy_idle_keepalive"), ("gevent", "healthy_idle_keepalive"),
+         ("eventlet", "healthy_idle_keepalive")]
+    results = _parallel(plan, lambda a, i: run_timeout(a[0], a[1]), par=11)
     traces = [r[0] for r in results]
     metas = [r[1] for r in results]
     verdicts, stats = tlc.validate_batch("TimeoutTrace", "TimeoutTrace.cfg", traces, name="TimeoutTrace_C11")
